@@ -1,4 +1,4 @@
-//go:build verif && vfe2
+//go:build verif
 
 package server
 
